@@ -49,6 +49,16 @@ def units_table(cls):
         name = f'_{c.__name__}__UNITS'
         if name in c.__dict__ and c.__dict__[name]:
             return c.__dict__[name]
+    # fallback when the private table was renamed: the constructor's KeyError message lists the units
+    import ast
+    import re
+    try:
+        cls(1, '\x00no-such-unit')
+    except KeyError as ex:
+        m = re.search(r'Available units are: (\[.*\])', str(ex))
+        if m:
+            names = ast.literal_eval(m.group(1))
+            return {u: None for u in names}
     raise RuntimeError(f'no unit table found for {cls.__name__}')
 
 
@@ -69,6 +79,12 @@ def extract():
         # a positive probe value is valid for every kind
         # behavioural SI value of each unit: convert 1 <unit> into the first unit whose private
         # factor is exactly 1, and back
+        if any(table[u] is None for u in names):
+            # behavioural table: factor of u relative to the first unit, then the unit with factor 1 is SI
+            rel = {u: float(cls(1, u).to(names[0]).value) for u in names}
+            base = [u for u in names if rel[u] == 1.0][0]
+            table = {u: rel[u] for u in names}
+            data.setdefault('notes', []).append(f'{py}: private unit table not found, units taken from the KeyError message')
         si_candidates = [u for u in names if float(table[u]) == 1.0]
         if not si_candidates:
             raise RuntimeError(f'{py}: no unit with factor 1')
